@@ -488,7 +488,7 @@ func (x *Exec) execStmt(s ast.Stmt, st *State) *State {
 	case *ast.GoStmt:
 		panic(unsupported("go statement"))
 	case *ast.TypeSwitchStmt:
-		panic(unsupported("type switch"))
+		return x.execTypeSwitch(n, st, "")
 	}
 	panic(unsupported("statement %T", s))
 }
@@ -679,6 +679,83 @@ func (x *Exec) execSwitch(n *ast.SwitchStmt, st *State, label string) *State {
 		outs = append(outs, x.execBlock(clause.Body, stC))
 	}
 	if deflt != nil {
+		outs = append(outs, x.execBlock(deflt.Body, rest))
+	} else {
+		outs = append(outs, rest)
+	}
+	x.frames = x.frames[:len(x.frames)-1]
+	outs = append(outs, fr.breaks...)
+	return x.merge(outs)
+}
+
+// execTypeSwitch: `switch v := e.(type)` over an interface token; a clause with a single type binds v to the
+// unboxed value, any other clause to the token itself.
+func (x *Exec) execTypeSwitch(n *ast.TypeSwitchStmt, st *State, label string) *State {
+	if n.Init != nil {
+		st = x.execStmt(n.Init, st)
+		if st == nil {
+			return nil
+		}
+	}
+	var subj ast.Expr
+	switch a := n.Assign.(type) {
+	case *ast.AssignStmt:
+		subj = a.Rhs[0].(*ast.TypeAssertExpr).X
+	case *ast.ExprStmt:
+		subj = a.X.(*ast.TypeAssertExpr).X
+	}
+	tv, st := x.eval(subj, st)
+	tsc, ok := tv.(Sc)
+	if !ok || tsc.S != SDyn {
+		panic(unsupported("type switch on %T", tv))
+	}
+	tok := tsc.T
+	x.c.used["dyn!"] = true
+	fr := &frame{label: label}
+	x.frames = append(x.frames, fr)
+	var outs []*State
+	rest := st
+	var deflt *ast.CaseClause
+	for _, cc := range n.Body.List {
+		clause := cc.(*ast.CaseClause)
+		if clause.List == nil {
+			deflt = clause
+			continue
+		}
+		var conds []string
+		var single types.Type
+		for _, e := range clause.List {
+			if id, isId := ast.Unparen(e).(*ast.Ident); isId && id.Name == "nil" {
+				conds = append(conds, tEq(tok, "dyn!nil"))
+				continue
+			}
+			t := x.info.TypeOf(e)
+			if _, isIface := t.Underlying().(*types.Interface); isIface {
+				panic(unsupported("type switch case on an interface type"))
+			}
+			conds = append(conds, tAnd(tNot(tEq(tok, "dyn!nil")), tEq(app("dyn!ty", tok), tInt(int64(dynCode(t))))))
+			single = t
+		}
+		cond := tOr(conds...)
+		stC := x.fork(rest, cond, "case")
+		rest = x.fork(rest, tNot(cond), "nocase")
+		if obj := x.info.Implicits[clause]; obj != nil && stC != nil {
+			var bound Val = tsc
+			if len(clause.List) == 1 && single != nil {
+				if uv, ok := x.unbox(tok, single); ok {
+					bound = uv
+				} else {
+					bound = x.c.freshVal("unboxed", single, nil)
+				}
+			}
+			stC.vars[obj] = bound
+		}
+		outs = append(outs, x.execBlock(clause.Body, stC))
+	}
+	if deflt != nil {
+		if obj := x.info.Implicits[deflt]; obj != nil && rest != nil {
+			rest.vars[obj] = tsc
+		}
 		outs = append(outs, x.execBlock(deflt.Body, rest))
 	} else {
 		outs = append(outs, rest)
@@ -1350,6 +1427,7 @@ func (x *Exec) execRange(n *ast.RangeStmt, st *State, label string) *State {
 		c.notes = append(c.notes, fmt.Sprintf("loop %d at %s has no invariant (treated as 'true')", ord, c.posOf(n)))
 	}
 	st.vars[idxObj] = scInt("0")
+	st.ghost["K"] = scInt("0") // the number of completed iterations, nameable in invariants when the key is blank
 	if valObj != nil {
 		st.vars[valObj] = c.zeroVal(valObj.Type(), nil)
 	}
@@ -1363,6 +1441,7 @@ func (x *Exec) execRange(n *ast.RangeStmt, st *State, label string) *State {
 	head := st.clone()
 	x.havoc(head, ms, fmt.Sprintf("L%d", ord))
 	i := head.vars[idxObj].(Sc).T
+	head.ghost["K"] = scInt(i)
 	c.assume(head.pc, tAnd(tLe("0", i), tLe(i, count)))
 	x.assumeInvsRange(ls, head, n.Body.Lbrace, idxObj, valObj, elem, count)
 	body := x.fork(head, tLt(i, count), "loop")
@@ -1388,6 +1467,7 @@ func (x *Exec) execRange(n *ast.RangeStmt, st *State, label string) *State {
 		// Go semantics: the hidden counter advances; assignments to the key
 		// variable inside the body do not affect iteration (none occur here).
 		back.vars[idxObj] = scInt(tAdd(i, "1"))
+		back.ghost["K"] = scInt(tAdd(i, "1"))
 		if len(paths) > 1 {
 			x.pathTag = fmt.Sprintf("@p%d", pi+1)
 		}
